@@ -98,7 +98,7 @@ Fixpoint xt_export (x : xt) : res pyval :=
                  ent (negb (str_eqb f fmt0)) $"fmtstr" (PStr f) ++
                  [($"max", PInt kmax); ($"min", PInt kmin)] ++
                  ent (fne r rel0) $"relative_resolution" (PFloat r) ++
-                 ent (fne s dblmin) $"scale" (PFloat s) ++ [($"type", PStr $"scaled")] ++
+                 [($"scale", PFloat s); ($"type", PStr $"scaled")] ++              (* mandatory: always exported *)
                  ent (negb (str_eqb u [])) $"unit" (PStr u)))
   | XBool => Ok (PDict [($"type", PStr $"bool")])
   | XEnum _ ms => Ok (PDict [($"members", PDict (map (fun p => (fst p, PInt (snd p))) ms)); ($"type", PStr $"enum")])
@@ -106,7 +106,7 @@ Fixpoint xt_export (x : xt) : res pyval :=
       Ok (PDict (ent u $"isUTF8" (PBool u) ++ ent (negb (Z.eqb b UNL)) $"maxchars" (PInt b) ++
                  ent (negb (Z.eqb a 0)) $"minchars" (PInt a) ++ [($"type", PStr $"string")]))
   | XBlob a b =>
-      Ok (PDict (ent (negb (Z.eqb b 0)) $"maxbytes" (PInt b) ++ ent (negb (Z.eqb a 0)) $"minbytes" (PInt a) ++
+      Ok (PDict ([($"maxbytes", PInt b)] ++ ent (negb (Z.eqb a 0)) $"minbytes" (PInt a) ++    (* maxbytes is mandatory *)
                  [($"type", PStr $"blob")]))
   | XArray e a b =>
       xt_export e >>= fun je =>
@@ -146,6 +146,18 @@ Definition tbl_forwarded (ty kw : str) : bool :=
   end.
 Definition tbl_floatargs (ty : str) : bool := match assoc_str ty dt_uses_floatargs with Some b => b | None => false end.
 
+(* kw=<CONST> if <p> is None else <p> *)
+Definition const_val (c : str) : pyval := if str_eqb c $"UNLIMITED" then PInt UNL else POpaque.
+Definition tbl_none_default (ty kw : str) (v : pyval) : pyval :=
+  match v with
+  | PNone =>
+      match assoc_str ty dt_none_defaults with
+      | Some l => match assoc_str kw l with Some c => const_val c | None => v end
+      | None => v
+      end
+  | _ => v
+  end.
+
 (* what a constructor does with a keyword it is not given *)
 Definition ctor_default (k : str) : pyval :=
   if str_eqb k $"minbytes" || str_eqb k $"minlen" || str_eqb k $"minchars" then PInt 0
@@ -172,7 +184,7 @@ Definition arg (ty k : str) (kw : list (str * pyval)) : pyval :=
                          | None => PNone
                          end
                end in
-  if tbl_forwarded ty k then bound else ctor_default k.
+  if tbl_forwarded ty k then tbl_none_default ty k bound else ctor_default k.
 (* value of lambda parameter k where it is used positionally / inside an expression *)
 Definition arg_pos (ty k : str) (kw : list (str * pyval)) : pyval :=
   match assoc_str k kw with
@@ -436,7 +448,7 @@ Definition vboth (b : xt) (v1 v2 : pyval) : res unit :=
 (* for i in range(min, max + 1): other(i) -- stops at the first value that is not accepted *)
 Fixpoint int_loop (d : dtype) (fuel : nat) (i mx : Z) : res unit :=
   match fuel with
-  | O => Ok tt
+  | O => Err EOther                                             (* not reached: see the fuel at the call sites *)
   | S f => if (mx <? i)%Z then Ok tt else dt_call d (PInt i) >>= fun _ => int_loop d f (i + 1) mx
   end.
 
@@ -457,8 +469,9 @@ Fixpoint compat (a b : xt) {struct a} : res unit :=
   | XInt mn mx =>
       match b with
       | XInt _ _ | XFloat _ _ _ _ _ _ | XScaled _ _ _ _ _ _ _ => vboth b (PInt mn) (PInt mx)
-      | XEnum _ ms => int_loop (erase b) (S (length ms)) mn mx >>= fun _ => W      (* no return after the loop *)
-      | XBool => int_loop (erase b) 3 mn mx >>= fun _ => W
+      (* an enum of n members accepts at most n consecutive ints, a bool at most 2: one more round ends the loop *)
+      | XEnum _ ms => int_loop (erase b) (S (S (length ms))) mn mx
+      | XBool => int_loop (erase b) 4 mn mx
       | _ => W
       end
   | XEnum _ ms =>
@@ -467,7 +480,7 @@ Fixpoint compat (a b : xt) {struct a} : res unit :=
          | [] => Ok tt
          | (n, z) :: r => dt_call (erase b) (PEnum n z) >>= fun _ => go r
          end) ms
-  | XBool => dt_call (erase b) (PBool false) >>= fun _ => dt_call (erase b) (PBool true) >>= fun _ => Ok tt
+  | XBool => vboth b (PBool false) (PBool true)                  (* other.validate(False); other.validate(True) *)
   | XBlob a1 a2 =>
       match b with
       | XBlob b1 b2 => if (a1 <? b1)%Z || (b2 <? a2)%Z then Err ERange else Ok tt
